@@ -26,7 +26,10 @@ Bases == { U("file", "", TRUE, <<"root">>, FALSE, <<>>),
            U("file", "", TRUE, <<"d1", "root">>, FALSE, <<>>),
            U("file", "", TRUE, <<"d1", "d2", "root">>, FALSE, <<>>),
            U("http", "h1", TRUE, <<"d1", "root">>, FALSE, <<>>),
-           U("https", "h1", TRUE, <<"d1", "d2", "root">>, FALSE, <<>>) }
+           U("https", "h1", TRUE, <<"d1", "d2", "root">>, FALSE, <<>>),
+           \* an explicit port that is the default of the OTHER scheme: part of the authority, kept as written
+           U("http", "h443", TRUE, <<"d1", "root">>, FALSE, <<>>),
+           U("https", "h80", TRUE, <<"root">>, FALSE, <<>>) }
 
 \* paths of 1..MaxSegs segments whose last segment is a name
 RECURSIVE SegSeqs(_)
@@ -40,6 +43,7 @@ Refs == {U("", "", FALSE, p, f[1], f[2]) : p \in Paths, f \in Frags}            
         \cup {U("", "", TRUE, p, f[1], f[2]) : p \in Paths, f \in Frags}              \* root-relative
         \cup {U("file", "", TRUE, p, f[1], f[2]) : p \in Paths, f \in Frags}          \* absolute file
         \cup {U("http", "h2", TRUE, p, f[1], f[2]) : p \in Paths, f \in Frags}        \* absolute http
+        \cup {U("http", "h443", TRUE, p, <<FALSE, <<>>>>[1], <<>>) : p \in Paths}       \* absolute http, port 443
         \cup {U("", "", FALSE, <<>>, f[1], f[2]) : f \in Frags}                       \* empty / fragment-only
 
 Cases == {[base |-> b, ref |-> r, want |-> NoFrag(Resolve(b, r))] : b \in Bases, r \in Refs}
